@@ -67,6 +67,18 @@ KERNELS = [
     dict(name="multimoora_refuses", kind="guards", file="skcriteria/agg/moora.py", cls="MultiMOORA", fn="_evaluate_data",
          params={"matrix": M}, unused=["objectives", "weights"], call=("multimoora", ["matrix", "objectives", "weights"]), ret="Bool", pick=None,
          pids=["C04"]),
+    dict(name="dominance_eq_where", file="skcriteria/utils/rank.py", fn="dominance", params={"array_a": V, "array_b": V, "reverse": "A1 n Bool"},
+         ret="A1 n Bool", pick="eq_where", pids=["C07"]),
+    dict(name="dominance_aDb_where", file="skcriteria/utils/rank.py", fn="dominance", params={"array_a": V, "array_b": V, "reverse": "A1 n Bool"},
+         ret="A1 n Bool", pick="aDb_where", pids=["C07"]),
+    dict(name="dominance_bDa_where", file="skcriteria/utils/rank.py", fn="dominance", params={"array_a": V, "array_b": V, "reverse": "A1 n Bool"},
+         ret="A1 n Bool", pick="bDa_where", pids=["C07"]),
+    dict(name="dominance_eq", file="skcriteria/utils/rank.py", fn="dominance", params={"array_a": V, "array_b": V, "reverse": "A1 n Bool"},
+         ret="A0 Nat", pick="eq", pids=["C07"]),
+    dict(name="dominance_aDb", file="skcriteria/utils/rank.py", fn="dominance", params={"array_a": V, "array_b": V, "reverse": "A1 n Bool"},
+         ret="A0 Nat", pick="aDb", pids=["C07"]),
+    dict(name="dominance_bDa", file="skcriteria/utils/rank.py", fn="dominance", params={"array_a": V, "array_b": V, "reverse": "A1 n Bool"},
+         ret="A0 Nat", pick="bDa", pids=["C07"]),
     dict(name="cenit", file="skcriteria/preprocessing/scalers.py", fn="matrix_scale_by_cenit_distance", params={"matrix": M, "objectives": V},
          ret=M, pick=None, pids=["C11", "C12"]),
     dict(name="scale_by_sum_M", file="skcriteria/preprocessing/scalers.py", fn="scale_by_sum", params={"arr": M}, bind={"axis": 0}, ret=M, pick=None,
@@ -124,6 +136,7 @@ class Tr:
         self.colsel = set()
         self.combs = {}
         self.falsebuf = {}
+        self.rebound = set()
 
     # ---- helpers
     def _dotted(self, node):
@@ -291,6 +304,8 @@ class Tr:
             if self._axis(kws, allow_keepdims=False) != ".a1":
                 raise Untranslated("sum over a column selection along another axis")
             return f"(Np.sum_kept {self.e(args[0])})"
+        if name == "sum" and len(args) == 1 and not kws and not (isinstance(args[0], ast.Name) and args[0].id in self.colsel):
+            return f"(Np.sum_all {self.e(args[0])})"
         if name == "any" and len(args) == 1 and not kws:
             return f"(Np.any_all {self.e(args[0])})"
         if name in red and len(args) >= 1:
@@ -414,6 +429,8 @@ class Tr:
                     continue
                 self.bind.pop(nm, None)
                 self.env.add(nm)
+                if not (isinstance(v, ast.Call) and self._dotted(v.func) in ("np.asarray", "numpy.asarray")):
+                    self.rebound.add(nm)
                 lines.append(f"  let {_q(nm)} := {rhs}")
             elif isinstance(s, ast.With) and len(s.items) == 1 and isinstance(s.items[0].context_expr, ast.Call) \
                     and self._dotted(s.items[0].context_expr.func) in ("np.errstate", "numpy.errstate") and s.items[0].optional_vars is None:
@@ -436,6 +453,13 @@ class Tr:
                 lines.append(self.pairs_loop(s))
             elif isinstance(s, ast.For):
                 lines.append(self.rows_loop(s))
+            elif isinstance(s, ast.If) and self._static_false(s.test):
+                # e.g. `if isinstance(reverse, bool): …` for a parameter typed as an array, `if np.shape(a) != np.shape(b): raise` for two
+                # parameters of one declared shape: the branch cannot be taken under the declared types; the else part runs
+                self.notes.append(f"`if {ast.unparse(s.test)}` is false under the declared parameter types")
+                if s.orelse:
+                    ls, _ = self.block(list(s.orelse) + [ast.Return(value=ast.Constant(value=0))], pick=None)
+                    lines += ls
             elif isinstance(s, ast.If) and s.orelse and self._branch_target(s.body) and self._branch_target(s.body) == self._branch_target(s.orelse):
                 # if c: …; x = e1  else: …; x = e2   (the branches' other locals stay local)
                 nm = self._branch_target(s.body)
@@ -459,6 +483,11 @@ class Tr:
                 v = s.value
                 if pick is None:
                     result = self.e(v)
+                elif isinstance(pick, str):
+                    kw = [k_ for k_ in (v.keywords if isinstance(v, ast.Call) else []) if k_.arg == pick]
+                    if len(kw) != 1:
+                        raise Untranslated(f"the returned record has no field {pick}")
+                    result = self.e(kw[0].value)
                 else:
                     if not isinstance(v, ast.Tuple) or pick >= len(v.elts):
                         raise Untranslated("return is not the expected tuple")
@@ -479,6 +508,22 @@ class Tr:
         if result is None:
             raise Untranslated("no return")
         return lines, result
+
+    def _static_false(self, test):
+        P = self.k["params"]
+        if isinstance(test, ast.Call) and isinstance(test.func, ast.Name) and test.func.id == "isinstance" and len(test.args) == 2 \
+                and isinstance(test.args[0], ast.Name) and isinstance(test.args[1], ast.Name) and test.args[1].id == "bool":
+            t = P.get(test.args[0].id)
+            return bool(t) and t.startswith(("A1", "A2")) and test.args[0].id in self.env and test.args[0].id not in self.rebound
+        if isinstance(test, ast.Compare) and len(test.ops) == 1 and isinstance(test.ops[0], ast.NotEq):
+            names = []
+            for sd in (test.left, test.comparators[0]):
+                if isinstance(sd, ast.Call) and self._dotted(sd.func) in ("np.shape", "numpy.shape") and len(sd.args) == 1 and isinstance(sd.args[0], ast.Name):
+                    names.append(sd.args[0].id)
+            if len(names) == 2 and all(nm in P and nm not in self.rebound for nm in names):
+                shape = lambda t: t.split()[0:2] if t.startswith("A1") else t.split()[0:3]  # noqa: E731
+                return shape(P[names[0]]) == shape(P[names[1]])
+        return False
 
     @staticmethod
     def _branch_target(stmts):
